@@ -201,7 +201,7 @@ fn case(case: u64, rng: &mut Rng, rep: &mut Report, thorough: bool) {
                     commit_windows.push((c, ev.seq, ev.note == "ok"));
                 }
             }
-            "ret:abort" => {
+            "ret:abort" | "ret:prepare_drop" => {
                 open_call = None;
             }
             _ => {}
@@ -453,7 +453,7 @@ fn twin_case(case: u64, rng: &mut Rng, rep: &mut Report, thorough: bool) {
                     }
                     in_flight = false;
                 }
-                "ret:abort" => in_flight = false,
+                "ret:abort" | "ret:prepare_drop" => in_flight = false,
                 _ => {}
             }
             continue;
